@@ -14,12 +14,12 @@ theorem hb_lk (inv : Inv wt rt s) (h : HInv wt s) (ht : ¬ tok.tid ≥ s.nthr)
   · rename_i hl0
     simp only [Option.some.injEq, Prod.mk.injEq] at hs
     obtain ⟨rfl, -⟩ := hs
-    have hkn : ∀ t', s.know t' ⊆ upd s.know tok.tid (s.know tok.tid ++ s.relL) t' := by
+    have hkn : ∀ t', s.know t' ⊆ upd s.know tok.tid (kmerge (s.know tok.tid) s.relL) t' := by
       intro t' x hx; simp only [upd]; split
-      · rename_i e; subst e; exact List.mem_append_left _ hx
+      · rename_i e; subst e; exact mem_kmerge_left _ hx
       · exact hx
     refine hstep h rfl h.stale h.pub h.mrk ?_ ?_ ?_ ?_ (by simp [HW]) ?_ (by simp [HR]) ?_
-    · intro _ x hx; simp only [upd_same]; exact List.mem_append_right _ (h.rell hu hl0 hx)
+    · intro _ x hx; simp only [upd_same]; exact mem_kmerge_right _ (h.rell hu hl0 hx)
     · intro t' _ hw' x hx; exact hkn t' (h.relw t' hw' hx)
     · intro hu' x hx; exact hkn wt (h.rel0 hu' hx)
     · intro _ hl; simp only [] at hl; omega
@@ -87,15 +87,15 @@ theorem hb_f0 (inv : Inv wt rt s) (h : HInv wt s) (ht : ¬ tok.tid ≥ s.nthr)
   have hin : rsec (s.pc tok.tid) = true := by rw [hpc]; rfl
   simp only [step, ht, hpc, if_false, Option.some.injEq, Prod.mk.injEq] at hs
   obtain ⟨rfl, -⟩ := hs
-  have hkn : ∀ t', s.know t' ⊆ upd s.know tok.tid (s.know tok.tid ++ s.relW) t' := by
+  have hkn : ∀ t', s.know t' ⊆ upd s.know tok.tid (kmerge (s.know tok.tid) s.relW) t' := by
     intro t' x hx; simp only [upd]; split
-    · rename_i e; subst e; exact List.mem_append_left _ hx
+    · rename_i e; subst e; exact mem_kmerge_left _ hx
     · exact hx
   refine hb_rstep inv h hin rfl rfl ⟨rfl, rfl, rfl, rfl, rfl, rfl, rfl⟩ hkn (fun t' ht' => by simp [upd, ht'])
     h.stale h.pub h.mrk ?_
   have seen : ∀ m, m ∈ s.q1 ++ s.q2 → ∀ i, i < spanCells m.nb →
-      s.cellW (m.cell + i) ∈ upd s.know tok.tid (s.know tok.tid ++ s.relW) tok.tid := by
-    intro m hm i hi; simp only [upd_same]; exact List.mem_append_right _ (h.pub m hm i hi)
+      s.cellW (m.cell + i) ∈ upd s.know tok.tid (kmerge (s.know tok.tid) s.relW) tok.tid := by
+    intro m hm i hi; simp only [upd_same]; exact mem_kmerge_right _ (h.pub m hm i hi)
   have g := inv.geo
   unfold Geo at g
   simp only [HR, HK, Seen]
@@ -110,7 +110,7 @@ theorem hb_f0 (inv : Inv wt rt s) (h : HInv wt s) (ht : ¬ tok.tid ≥ s.nthr)
     simp only [hmk] at g
     refine ⟨fun hc => by simp at hc, fun _ => ⟨?_, ?_, ?_⟩⟩
     · intro m l hq; exact seen m (by simp [hq])
-    · intro M' hM'; cases hM'; simp only [upd_same]; exact List.mem_append_right _ (h.mrk M hmk)
+    · intro M' hM'; cases hM'; simp only [upd_same]; exact mem_kmerge_right _ (h.mrk M hmk)
     · intro hw
       cases hq : s.q2 with
       | nil => rw [hq] at g; simp only [chain] at g; exact absurd g.2.1.symm hw
